@@ -416,6 +416,7 @@ func canonParse(m map[string]any) string {
 // ---------------------------------------------------------------- the world: files and programs
 
 type pool struct {
+	real  bool // the files are on disk (real.go)
 	files vfs
 	fkind map[string]string // name -> j n b u d x ; absent = missing
 	progs map[string]string // program text -> class (ok fnum fall nc), "$x" programs handled in pcOf
@@ -648,6 +649,10 @@ func (p *pool) worldText(f facts, argv []string) string {
 			j = "1"
 		}
 		es[i] = strings.Join([]string{hx(n), p.fk(n), p.pc(n, argv), p.cc(n), j, f.fmtKind(n)}, ":")
+		if p.real {
+			// what os.Open / Stat / Seek / ReadAll say about the name on the real file system (real.go)
+			es[i] += ":" + measure(n)
+		}
 	}
 	return strings.Join(es, ",")
 }
@@ -678,7 +683,10 @@ func collapseExpr(cs []string) []string {
 // classifyStderr maps stderr to the canonical class list.  Lines of the input loop are `error: <name>: <text>`
 // (init.jq:36,49,119), fatal errors `error: <text>` (internal.jq:29).  A decode error's text starts with the
 // decode group (init.jq:42), which is `probe` or a string of the command line (`groups`).
-func classifyStderr(stderr []byte, inputs map[string]bool, groups map[string]bool) []string {
+//
+// real = the run used the real file system: an io error then carries the operating system's text, not a marker of the
+// virtual OS; every report about an input that is neither the program's (marker text) nor a decode error is io.
+func classifyStderr(stderr []byte, inputs map[string]bool, groups map[string]bool, real bool) []string {
 	var out []string
 	for _, l := range strings.Split(string(stderr), "\n") {
 		if l == "" {
@@ -704,6 +712,8 @@ func classifyStderr(stderr []byte, inputs map[string]bool, groups map[string]boo
 			out = append(out, "io:"+hx(name))
 		case isInput && isDec:
 			out = append(out, "dec:"+hx(name))
+		case isInput && real:
+			out = append(out, "io:"+hx(name))
 		case isInput:
 			out = append(out, "expr") // an error raised by the program without the marker text
 		default:
@@ -713,11 +723,11 @@ func classifyStderr(stderr []byte, inputs map[string]bool, groups map[string]boo
 	return collapseExpr(out)
 }
 
-func obsText(r runResult, inputs, groups map[string]bool) string {
+func obsText(r runResult, inputs, groups map[string]bool, real bool) string {
 	if r.panic != "" {
 		return "panic:" + hx(r.panic)
 	}
-	errs := classifyStderr(r.stderr, inputs, groups)
+	errs := classifyStderr(r.stderr, inputs, groups, real)
 	e := "-"
 	if len(errs) > 0 {
 		e = strings.Join(errs, ",")
@@ -730,6 +740,7 @@ type runner struct {
 	f       facts
 	p       *pool
 	pending []pendingParse
+	real    *realTree // non-nil: run cases go to the real file system (real.go)
 }
 
 func (rn *runner) runCase(argv []string, marks []bool, stdinKind string) {
@@ -746,7 +757,8 @@ func (rn *runner) runCase(argv []string, marks []bool, stdinKind string) {
 		}
 	}
 	stdin := stdinBytes(stdinKind)
-	all := runMain(argv, rn.p.files, stdin)
+	real := rn.real != nil
+	all := rn.mainRun(argv, stdin)
 	var singles []string
 	for _, keep := range marked {
 		var av []string
@@ -756,17 +768,21 @@ func (rn *runner) runCase(argv []string, marks []bool, stdinKind string) {
 			}
 			av = append(av, a)
 		}
-		singles = append(singles, obsText(runMain(av, rn.p.files, stdin), inputs, groups))
+		singles = append(singles, obsText(rn.mainRun(av, stdin), inputs, groups, real))
 	}
 	s := "."
 	if len(singles) > 0 {
 		s = strings.Join(singles, ";")
 	}
 	op := fmt.Sprintf("run argv=%s stdin=%s world=%s %s", argvText(argv, marks), stdinKind, rn.p.worldText(rn.f, argv), note(argv))
-	obs := fmt.Sprintf("all=%s singles=%s", obsText(all, inputs, groups), s)
+	if real {
+		op = strings.Replace(op, "run argv=", "run fs=real argv=", 1)
+		rn.o.Stat("real_fs_cases", 1)
+	}
+	obs := fmt.Sprintf("all=%s singles=%s", obsText(all, inputs, groups, real), s)
 	nruns := 1 + len(singles)
 	if av, has := withoutRepl(argv); has {
-		obs += " norepl=" + obsText(runMain(av, rn.p.files, stdin), inputs, groups)
+		obs += " norepl=" + obsText(rn.mainRun(av, stdin), inputs, groups, real)
 		nruns++
 		rn.o.Stat("repl_cases", 1)
 	}
@@ -880,7 +896,13 @@ func (rn *runner) replay(path string) {
 			rn.metaCase(ws[1], a, b)
 		case "run":
 			av, marks := parseArgvText(get("argv"))
-			rn.runCase(av, marks, get("stdin"))
+			if get("fs") == "real" {
+				rn.realRunner().runCase(av, marks, get("stdin"))
+			} else {
+				rn.runCase(av, marks, get("stdin"))
+			}
+		case "raw":
+			rn.rawReplay(get("form"), get("files"), get("stdin"))
 		case "opt":
 			av, _ := parseArgvText(get("argv"))
 			rn.optCase(av, get("stdin"))
@@ -899,6 +921,7 @@ func main() {
 	cfg := hlib.ParseFlags()
 	o := hlib.NewOut(cfg.Out)
 	defer o.Close()
+	defer cleanupRealTree()
 	f := loadFacts()
 	rn := &runner{o: o, f: f, p: newPool()}
 	rn.p.addOptFiles()
@@ -919,6 +942,37 @@ func main() {
 		} else {
 			rn.matrix(2, false)
 		}
+		return
+	}
+
+	if len(cfg.Args) > 0 && cfg.Args[0] == "real" {
+		// the real file system family (real.go): hand-written lines, the exhaustive small domain, random command lines
+		rr := rn.realRunner()
+		rr.realFixed()
+		rr.realMatrix(cfg.Thorough())
+		nReal := 80
+		if cfg.Thorough() {
+			nReal = 800
+		}
+		gr := &gen{r: r, f: f, p: rr.p, real: rr.real}
+		for i := 0; i < nReal; i++ {
+			argv, marks, stdin := gr.runArgv()
+			rr.runCase(argv, marks, stdin)
+			if i < 3 {
+				o.Sample("real fs: fq " + strings.Join(argv, " "))
+			}
+		}
+		o.Stat("run_cases", nReal)
+		return
+	}
+	if len(cfg.Args) > 0 && cfg.Args[0] == "raw" {
+		// raw input at byte level (raw.go)
+		nRaw := 260
+		if cfg.Thorough() {
+			nRaw = 2500
+		}
+		rn.rawFixed()
+		rn.rawRandom(g, nRaw)
 		return
 	}
 
